@@ -844,13 +844,14 @@ class Engine:
     def add_drop_hook(self, pattern, handler):
         self.drop_hooks.append((re.compile(pattern), handler))
 
-    def find_summary(self, callee):
+    def find_summary(self, callee, fallbacks=True):
         for rx, h in self.summaries:
             if rx.search(callee):
                 return h
-        for rx, h in getattr(self, "fallbacks", []):
-            if rx.search(callee):
-                return h
+        if fallbacks:
+            for rx, h in getattr(self, "fallbacks", []):
+                if rx.search(callee):
+                    return h
         return None
 
     def find_fn(self, callee):
@@ -1143,7 +1144,8 @@ class Engine:
         args = [self.operand(st, fr, a) for a in argops]
         dcell, dpath = self.resolve(st, fr, dest)
         dty = fr.fn.locals.get(dest.local, "?") if not dest.proj else "?"
-        h = self.find_summary(callee)
+        # order: a lemma's own summaries, then the real code (crate-local, then sibling crates), then the fallback library
+        h = self.find_summary(callee, fallbacks=False)
         if h is None:
             fn = self.find_fn(callee)
             # functions of the crate under analysis are executed (inlined) unless a lemma summarises them
@@ -1152,7 +1154,9 @@ class Engine:
             if fn is not None and fn.blocks:
                 self.push_call(st, fn, args, (dcell, dpath), ret_bb)
                 return None
-            raise EngineAbort("no summary for callee %r (called from %s)" % (callee, fr.fn.name))
+            h = self.find_summary(callee)
+            if h is None:
+                raise EngineAbort("no summary for callee %r (called from %s)" % (callee, fr.fn.name))
         outs = h(self, st, callee, args, dty)
         if isinstance(outs, Outcome):
             outs = [outs]
